@@ -591,6 +591,7 @@ class Engine:
         self.vars = {}
         self.max_decisions = max_decisions
         self.code_roots = tuple(code_roots)
+        self.second_solver = None      # optional callback(engine, obligation, tag): re-discharge with another solver
         # statistics
         self.paths = 0
         self.infeasible_paths = 0
@@ -767,6 +768,8 @@ class Engine:
             self.model = None
             raise Violation(tag, message)
         self.discharged += 1
+        if self.second_solver is not None:
+            self.second_solver(self, c, tag)
 
     def note(self, tag):
         self._notes.add(tag)
